@@ -143,13 +143,26 @@ func isNilErr(v ssa.Value) bool { return isNilConst(v) }
 
 func notNilConst(v ssa.Value) bool { return !isNilConst(v) }
 
-// SuccessReturns: return paths on which the error result (last result) is the nil constant.
+// SuccessReturns: return paths on which the error result (last result) is the nil
+// constant, or a value a dominating comparison has shown to be nil.
 func SuccessReturns(fn *ssa.Function) []retPath {
 	n := fn.Signature.Results().Len()
 	if n == 0 {
 		return nil
 	}
-	return ReturnPaths(fn, n-1, isNilErr)
+	var out []retPath
+	for _, p := range ReturnPaths(fn, n-1, func(ssa.Value) bool { return true }) {
+		if isNilConst(p.Val) {
+			out = append(out, p)
+			continue
+		}
+		// `return err` where a dominating test already established err == nil is a
+		// success return as well (the value is known to be nil on that path)
+		if HasFact(p.Facts, `^\+\(`+q(Desc(p.Val))+` == nil\)$`) {
+			out = append(out, p)
+		}
+	}
+	return out
 }
 
 // fieldStores returns stores (and map updates / deletes through the loaded
